@@ -195,7 +195,17 @@ def streams(tier, rng, P, only=None, cases=None):
                 src = "PRINT(CHR(%d))" % c; mreq = "builtin chr %d" % c
             elif k == "array":
                 arr = [rng.randint(-9, 99) for _ in range(rng.randrange(1, 7))]; ix = rng.randrange(0, len(arr))
-                src = "ARRAY A=(%s) PRINT(A(%d))" % (",".join(map(str, arr)), ix); mreq = "expr I%d" % arr[ix]
+                form = rng.random(); nm = rng.choice(["A", "Arr", "ZZTop"]); lit = ",".join(map(str, arr))
+                if form < 0.5: src = "ARRAY %s=(%s) PRINT(%s(%d))" % (nm, lit, nm, ix)
+                elif form < 0.7 and len(arr) >= 2:      # (`(61)` alone is a parenthesised number, not a one-element array)
+                    # an array assigned again with a plain `=` is still indexed from 0
+                    old_ = ",".join(str(rng.randint(0, 9)) for _ in range(rng.randrange(1, 5)))
+                    src = "ARRAY %s=(%s) %s=(%s) PRINT(%s(%d))" % (nm, old_, nm, lit, nm, ix)
+                elif form < 0.85 and len(arr) >= 2:
+                    # ... and so is an array received as a function parameter
+                    src = "FUNCTION FQ(QP){ PRINT(QP(%d)) } FQ((%s))" % (ix, lit)
+                else: src = "ARRAY %s=(%s); INT IX=%d; PRINT(%s(IX))" % (nm, lit, ix, nm)
+                mreq = "expr I%d" % arr[ix]
             elif rng.random() < 0.3:
                 # an array whose elements are arrays: SizeOf counts the top-level elements, indexing returns the inner array
                 inner = [[rng.randint(0, 9) for _ in range(rng.randrange(1, 4))] for _ in range(rng.randrange(2, 4))]
